@@ -54,6 +54,37 @@ def sfs(args, stdin=None, kind="release", env=None, timeout=30, exe=None, cwd=No
         return Run(argv[1:], None, t.stdout or b"", t.stderr or b"", timed_out=True, stdin=stdin, env=env, kind=kind)
 
 
+def sfs_stdout_to(args, stdin, where, kind="release", timeout=30):
+    """Run with stdout connected to something that cannot take the output. where: 'closed-pipe' (a pipe whose reader has gone:
+    EPIPE), '/dev/full' (ENOSPC), 'read-only-fd' (a descriptor opened for reading: EBADF). Only stderr and the status come back."""
+    exe = build.cli(kind)
+    e = dict(BASE_ENV)
+    argv = [exe] + [str(a) for a in args]
+    close = []
+    if where == "closed-pipe":
+        rd, wr = os.pipe()
+        os.close(rd)
+        out = wr
+        close.append(wr)
+    elif where == "read-only-fd":
+        out = os.open("/dev/null", os.O_RDONLY)
+        close.append(out)
+    else:
+        out = os.open(where, os.O_WRONLY)
+        close.append(out)
+    try:
+        p = subprocess.run(argv, input=stdin if stdin is not None else b"", stdout=out, stderr=subprocess.PIPE, env=e, timeout=timeout)
+        return Run(argv[1:], p.returncode, b"", p.stderr, stdin=stdin, kind=kind)
+    except subprocess.TimeoutExpired as t:
+        return Run(argv[1:], None, b"", t.stderr or b"", timed_out=True, stdin=stdin, kind=kind)
+    finally:
+        for fd in close:
+            try:
+                os.close(fd)
+            except OSError:
+                pass
+
+
 def pipeline(stages, stdin=None, kind="release", timeout=30):
     """Run stages (list of arg lists) connected by pipes in memory; returns list of Run."""
     runs = []
